@@ -186,8 +186,9 @@ Inductive hres := HOk (h : header) (data : bytes) | HErr (e : err) | HUnmodelled
 
 (* statements after the field loop *)
 Definition finish_header (v : hvars) (data : bytes) : hres :=
-  let samptype := if hdr_infer_pcm (v_coding v) (v_size v) (v_order v) then Some Pcm else v_coding v in
-  if hdr_reject samptype (v_count v) (v_rate v) (v_chans v) (v_order v) then HErr EIO
+  let samptype := if hdr_infer_pcm (v_coding v) (v_size v) (v_count v) (v_rate v) (v_chans v) (v_order v)
+                  then Some Pcm else v_coding v in
+  if hdr_reject samptype (v_size v) (v_count v) (v_rate v) (v_chans v) (v_order v) then HErr EIO
   else
     match samptype, v_count v, v_rate v, v_chans v with
     | Some c, Some n, Some r, Some ch =>
